@@ -29,12 +29,12 @@ ASSUMPTIONS = ["masters are structurally compatible (same shape structure); inco
 def master_svg(k, variant, rng_vals):
     # same structure in every master: two shapes (one solid, one gradient), coordinates depend on the master
     dx, dy, s = rng_vals[variant]
-    a = 10 + dx
-    b = 15 + dy
-    w = 30 * s
+    a = 10 + dx + 4 * k
+    b = 15 + dy + 3 * k
+    w = (30 - 7 * k) * s
     return (f'<svg xmlns="http://www.w3.org/2000/svg" viewBox="0 0 100 100">'
             f'<path d="M{a},{b} L{a + w},{b} L{a + w},{b + w} L{a},{b + w} Z" fill="#FF0000"/>'
-            f'<path d="M{60 + dx},{50 - dy} L{90 - dx},{60} L{70},{90 + dy / 2} Z" fill="#0000FF" opacity="0.5"/></svg>')
+            f'<path d="M{60 + dx - 5 * k},{50 - dy} L{90 - dx - 9 * k},{60} L{70 - 5 * k},{90 + dy / 2 - 6 * k} Z" fill="#0000FF" opacity="0.5"/></svg>')
 
 
 def one(job):
@@ -59,8 +59,13 @@ def one(job):
             locs = [{"wght": 400}, {"wght": w_hi}, {"wght": 312.5 if frac else 100}][:n_masters]
         names = ["regular", "bold", "other"][:n_masters]
         for m, nm in enumerate(names):
-            cli.write_svgs(d / nm, {"emoji_u1f600.svg": master_svg(0, m, vals), "emoji_u1f601.svg": master_svg(1, (m + 0) % len(vals), vals)})
-        toml = ['family = "VF"', 'output_file = "VF.ttf"', 'color_format = "glyf_colr_1"', "clipbox_quantization = 1"]
+            # three glyphs; the first and the LAST have identical geometry (hence identical clip boxes) in every non-default master and
+            # different geometry in the default one: non-adjacent glyphs sharing a box in some masters only
+            third = master_svg(0, m, vals) if m > 0 else master_svg(0, 0, [(3, -2, 0.9)])
+            cli.write_svgs(d / nm, {"emoji_u1f600.svg": master_svg(0, m, vals), "emoji_u1f601.svg": master_svg(1, (m + 0) % len(vals), vals),
+                                    "emoji_u1f602.svg": third})
+        # reuse off: the twin glyphs would otherwise share an outline in some masters only, which makes the masters incompatible
+        toml = ['family = "VF"', 'output_file = "VF.ttf"', 'color_format = "glyf_colr_1"', "clipbox_quantization = 1", "reuse_tolerance = -1"]
         toml.append('[axis.wght]\nname = "Weight"\ndefault = 400')
         if two_axes:
             toml.append('[axis.wdth]\nname = "Width"\ndefault = 100')
@@ -74,7 +79,7 @@ def one(job):
         vf_bytes = vfp.read_bytes()
         result = {"seed": seed, "rc": 0, "two_axes": two_axes, "masters": [], "vf": vf_bytes}
         for nm, loc in zip(names, locs):
-            rc2, out2 = cli.nanoemoji(["--build_dir", d / f"static_{nm}", "--color_format", "glyf_colr_1", "--clipbox_quantization", "1", "--family", "VF",
+            rc2, out2 = cli.nanoemoji(["--build_dir", d / f"static_{nm}", "--color_format", "glyf_colr_1", "--clipbox_quantization", "1", "--reuse_tolerance=-1", "--family", "VF",
                                        "--output_file", "S.ttf", *sorted((d / nm).glob("*.svg"))], d)
             sp = d / f"static_{nm}" / "S.ttf"
             if rc2 != 0:
@@ -126,7 +131,7 @@ def summarize(font_bytes):
     f = ttLib.TTFont(io.BytesIO(font_bytes), lazy=False)
     out = {}
     cm = f.getBestCmap()
-    for cp in (0x1F600, 0x1F601):
+    for cp in (0x1F600, 0x1F601, 0x1F602):
         g = cm.get(cp)
         if g is None:
             continue
